@@ -13,7 +13,14 @@ import (
 	"golang.org/x/tools/go/ssa/ssautil"
 )
 
-const repoDir = "/repo"
+// repoDir is the tree under verification: /repo, or (self-test only) a scratch
+// copy of it with a seeded change applied, named by GVC_REPO.
+var repoDir = func() string {
+	if d := os.Getenv("GVC_REPO"); d != "" {
+		return d
+	}
+	return "/repo"
+}()
 const contractFileName = "zz_contracts_verif.go"
 const stubFileName = "zz_gvc_stubs_verif.go"
 
